@@ -660,6 +660,7 @@ fn run_index_text_op(op: &str, index: i32, index2: i32, len: usize, text: bool) 
     };
     match jp::parse_json_path(t.as_bytes()) {
         Ok(p) => {
+            let _ = format!("{p}");
             let mut data = vec![];
             let mut offs = vec![];
             res_name(jsonb::get_by_path(&enc(&arr), p, &mut data, &mut offs))
@@ -828,6 +829,18 @@ fn run_index_op(op: &str, index: i32, index2: i32, len: usize, text: bool) -> St
     let st = mval::TextStyle::default();
     let args: Vec<Vec<u8>> = regs.iter().map(|r| if text { mval::to_text(r, &st).into_bytes() } else { mval::encode(r) }).collect();
     let o = index_op(op, index, index2);
+    // rendering the path (what an error message or a log line does) is part of handling it
+    if let Op::Select { path, .. } = &o {
+        let _ = path.display();
+    }
+    if let Op::DeleteByKeypath { path, .. } | Op::GetByKeypath { path, .. } = &o {
+        let kp = jsonb::keypath::KeyPaths { paths: path.iter().map(|k| match k {
+            KP::Idx(i) => jsonb::keypath::KeyPath::Index(*i),
+            KP::Name(s) => jsonb::keypath::KeyPath::Name(Cow::Owned(s.clone())),
+            KP::QName(s) => jsonb::keypath::KeyPath::QuotedName(Cow::Owned(s.clone())),
+        }).collect() };
+        let _ = format!("{kp}");
+    }
     let mut buf = vec![];
     let mut offs = vec![];
     let got = ops::call(&o, &args, &regs, &mut buf, &mut offs);
